@@ -1,3 +1,4 @@
+import Mqtt5V.Proofs.TraceContent
 import Mqtt5V.Proofs.Enc
 /-! # C17 — every packet written is well-formed MQTT 5 and says exactly what was asked (encoder level)
 
@@ -455,5 +456,24 @@ example : WFPublish (some 7) [97, 47, 98] 1 0 0 [⟨35, .u16 3⟩, ⟨38, .pair 
   intro p hp
   simp at hp
   rcases hp with rfl | rfl <;> exact ⟨by decide, by decide, by decide, by simp [WFVal]⟩
+
+/-! ## the composed client model, content of requests (`Model/TraceContent.lean`)
+The front end (`lib/trace_abs.py: abstract_content`) computes the content identity of a publish (topic, payload, QoS, retain, canonical
+properties) twice: from the arguments of the API call and from the packet the independent reference decoder reads off the wire; the tie
+(`lib/trace_check.py`) replays every H-client transcript. -/
+section ComposedContent
+open Mqtt5V.Model
+
+/-- **every accepted history**: whenever a PUBLISH of operation `op` is written — first transmission or retransmission, on any connection —
+it says exactly what the operation's `async_publish` call said, and that call came before -/
+theorem composed_request_says_what_was_asked (pre post : List TraceContent.Ev) (op c : Nat)
+    (hacc : TraceContent.accepts (pre ++ TraceContent.Ev.req op c :: post) = true) : TraceContent.Ev.init op c ∈ pre :=
+  Mqtt5V.Proofs.TraceContent.request_says_what_was_asked hacc
+
+example : TraceContent.accepts [.init 1 5, .init 2 6, .req 1 5, .req 2 6, .req 1 5] = true := by decide
+example : TraceContent.accepts [.init 1 5, .req 1 6] = false := by decide
+example : TraceContent.accepts [.req 1 5] = false := by decide
+
+end ComposedContent
 
 end Mqtt5V.Props.C17
